@@ -351,10 +351,15 @@ fn one_op(w: &mut XWorld) -> (String, &'static str, Result<(), String>) {
         10 => {
             let n = 1 + cx().a(room.min(300) as u32) as usize;
             let doff = cx().a((size - n + 1) as u32) as usize;
+            let via_array = cx().a(3) == 0;
             let r = res(catch(|| -> Result<(), String> {
                 let s = w.region.get_slice(at, n).map_err(|e| format!("{:?}", e))?;
                 let d = w.region.get_slice(MemoryRegionAddress(doff as u64), n).map_err(|e| format!("{:?}", e))?;
-                s.copy_to_volatile_slice(d);
+                if via_array {
+                    s.get_array_ref::<u8>(0, n).map_err(|e| format!("{:?}", e))?.copy_to_volatile_slice(d);
+                } else {
+                    s.copy_to_volatile_slice(d);
+                }
                 Ok(())
             }));
             let ok = r.and_then(|x| x);
@@ -362,7 +367,7 @@ fn one_op(w: &mut XWorld) -> (String, &'static str, Result<(), String>) {
                 let src = w.model[off..off + n].to_vec();
                 w.model[doff..doff + n].copy_from_slice(&src);
             }
-            (format!("get_slice({}, {}).copy_to_volatile_slice(get_slice({}, {}))", off, n, doff, n), "slice-to-slice copy", ok)
+            (format!("get_slice({}, {}){}.copy_to_volatile_slice(get_slice({}, {}))", off, n, if via_array { ".get_array_ref::<u8>(0, n)" } else { "" }, doff, n), if via_array { "element-array-to-slice copy" } else { "slice-to-slice copy" }, ok)
         }
         11 => {
             let n = 1 + cx().a(room.min(5000) as u32) as usize;
